@@ -53,13 +53,21 @@ pub fn stub_enc(
     Ok(())
 }
 
+/// model of aead_setup_rfc9580 for the layout harnesses (HKDF itself costs ~700 s of symbolic execution even
+/// with a no-op compression function): info as the RFC defines it, fixed key, zero IV.  The real function
+/// is checked on its own in c12_aead_setup_info.
+pub fn stub_setup(sym_alg: SymmetricKeyAlgorithm, aead: AeadAlgorithm, chunk_size: ChunkSize, _salt: &[u8], _ikm: &[u8]) -> ([u8; 5], zeroize::Zeroizing<Vec<u8>>, Vec<u8>) {
+    let info = [0xD2, 0x02, sym_alg.into(), aead.into(), chunk_size.into()];
+    (info, zeroize::Zeroizing::new(vec![7u8; 16]), vec![0u8; aead.nonce_size()])
+}
+
 macro_rules! aproof {
     ($name:ident, $uw:expr, $body:block) => {
         #[kani::proof]
         #[kani::unwind($uw)]
         #[kani::stub(std::fmt::format, crate::__verif_common::stub_format)]
         #[kani::stub(snafu::backtrace_collection_enabled, crate::__verif_common::stub_bt)]
-        #[kani::stub(sha2::sha256::compress256, stub_compress)]
+        #[kani::stub(crate::crypto::aead::aead_setup_rfc9580, stub_setup)]
         #[kani::stub(crate::crypto::aead::AeadAlgorithm::encrypt_in_place, stub_enc)]
         fn $name() $body
     };
@@ -176,3 +184,39 @@ vproof!(c12_chunk_size_octets, 4, {
         }
     }
 });
+
+/// the real key-schedule function: info octets, key and nonce lengths, IV occupies the nonce prefix and the
+/// last 8 octets (chunk index) start at zero — for every cipher with a key size and the three AEAD modes
+#[kani::proof]
+#[kani::unwind(70)]
+#[kani::stub(std::fmt::format, crate::__verif_common::stub_format)]
+#[kani::stub(snafu::backtrace_collection_enabled, crate::__verif_common::stub_bt)]
+#[kani::stub(sha2::sha256::compress256, stub_compress)]
+fn c12_aead_setup_info() {
+    let a: u8 = kani::any();
+    kani::assume(a >= 1 && a <= 3);
+    let cs: u8 = kani::any();
+    kani::assume(cs <= 16);
+    let aead = AeadAlgorithm::from(a);
+    let chunk = match ChunkSize::try_from(cs) {
+        Ok(c) => c,
+        Err(e) => {
+            core::mem::forget(e);
+            return;
+        }
+    };
+    let key = [7u8; 32];
+    let salt = [1u8; 32];
+    let (info, mkey, nonce) = aead_setup_rfc9580(SymmetricKeyAlgorithm::AES256, aead, chunk, &salt[..], &key[..]);
+    assert!(info == [0xD2, 0x02, 9, a, cs], "C12: SEIPDv2 info octets are not D2 02 cipher aead chunk");
+    assert!(mkey.len() == 32, "C12: message key length");
+    assert!(nonce.len() == aead.nonce_size(), "C12: nonce length");
+    let l = nonce.len();
+    let mut k = 0;
+    while k < 8 {
+        assert!(nonce[l - 8 + k] == 0, "C12: chunk index part of the initial nonce is not zero");
+        k += 1;
+    }
+    core::mem::forget(mkey);
+    core::mem::forget(nonce);
+}
